@@ -63,6 +63,13 @@ pub enum Action {
     /// close the handle, try to open the file with another page size (must be refused, by an error or
     /// the documented panic, without touching the file), open it again with its own page size
     OpenWrongPagesize(u64),
+    /// with the handle closed: if the two headers do not sit in the slots the pinned release would have
+    /// put them into (transaction N in slot (N + 1) % 2), they are exchanged (slot fields and
+    /// checksums adjusted).  A no-op on files written by the pinned alternation rule.
+    PinnedLayout,
+    /// environment damage: with the handle closed, the last id is dropped from the persisted free
+    /// list (that page is then neither reachable nor free: DB::check and strict-mode commits refuse)
+    LeakFreePage,
     /// environment damage: with the handle closed, the header slot that is NOT the current one gets
     /// its transaction-id word overwritten (as a torn header write leaves it: checksum invalid); then
     /// the file is opened again.  The committed state is unchanged.
@@ -83,6 +90,8 @@ impl Action {
             Action::TxFail { ops, call } => json!({"txfail": ops.iter().map(|o| o.to_json()).collect::<Vec<_>>(), "failing_io_call": call}),
             Action::Reopen => json!("reopen"),
             Action::TearOtherSlot => json!("tear-other-header-slot"),
+            Action::PinnedLayout => json!("headers-into-pinned-slots"),
+            Action::LeakFreePage => json!("drop-last-id-from-free-list"),
             Action::OpenWrongPagesize(ps) => json!({"open-with-pagesize": ps}),
             Action::OpenReader => json!("open-reader"),
             Action::CloseReader(i) => json!({"close-reader": i}),
@@ -93,6 +102,8 @@ impl Action {
             return match s {
                 "reopen" => Action::Reopen,
                 "tear-other-header-slot" => Action::TearOtherSlot,
+                "headers-into-pinned-slots" => Action::PinnedLayout,
+                "drop-last-id-from-free-list" => Action::LeakFreePage,
                 "open-reader" => Action::OpenReader,
                 "ro-commit" => Action::RoCommit,
                 _ => panic!("unknown action {}", s),
@@ -208,6 +219,10 @@ pub struct Runner {
     pub count_next_commit: bool,
     /// the next write transaction opens a long-lived reader before it ends
     pub reader_inside_next_tx: bool,
+    /// the next commit is expected to report an error of its own (strict mode on an inconsistent
+    /// file): not a violation; the committed state must then be unchanged
+    pub expect_commit_error: bool,
+    pub commit_error_seen: bool,
     pub last_commit_kinds: Vec<crate::iosim::Kind>,
     pub last_fault_fired: bool,
     /// set when a commit with an injected fault returned an error: the state it would have produced
@@ -287,6 +302,8 @@ impl Runner {
             fault_next_commit: None,
             count_next_commit: false,
             reader_inside_next_tx: false,
+            expect_commit_error: false,
+            commit_error_seen: false,
             last_commit_kinds: vec![],
             last_fault_fired: false,
             pending_post: None,
@@ -316,6 +333,8 @@ impl Runner {
             fault_next_commit: None,
             count_next_commit: false,
             reader_inside_next_tx: false,
+            expect_commit_error: false,
+            commit_error_seen: false,
             last_commit_kinds: vec![],
             last_fault_fired: false,
             pending_post: None,
@@ -640,6 +659,11 @@ impl Runner {
                             self.model = model;
                             self.stats.commits += 1;
                         }
+                        Ok(Err(e)) if self.expect_commit_error => {
+                            self.last_commit_error = Some(format!("{:?}", e));
+                            self.commit_error_seen = true;
+                            return out;
+                        }
                         Ok(Err(e)) => {
                             out.push(Violation::new(format!("commit_error:{:?}", real::err_kind(&e)), format!("commit returned {:?}", e)));
                             self.poisoned = true;
@@ -685,7 +709,41 @@ impl Runner {
                 // call >= 1000: the (call-1000)-th fsync fails: the outcome may be the pre- or the
                 // post-state, whichever it is must be complete and later commits must work
                 let before_model = self.model.clone();
-                self.fault_next_commit = Some(if *call >= 2000 {
+                if *call == 9000 {
+                    // no fault: the commit may refuse by itself (strict mode on a file with a leaked
+                    // page); if it reports an error, nothing of it may be visible
+                    self.expect_commit_error = true;
+                    self.commit_error_seen = false;
+                    let inner = self.step(&Action::Tx { ops: ops.clone(), commit: true }, &Oracles::NONE);
+                    self.expect_commit_error = false;
+                    out.extend(inner);
+                    if self.poisoned {
+                        return out;
+                    }
+                    if self.commit_error_seen {
+                        self.model = before_model;
+                        let db = self.db_static();
+                        match guarded(|| db.tx(false).map(|tx| real::dump_tx(&tx))) {
+                            Ok(Ok(Ok(d))) => {
+                                if let Some(diff) = d.diff(&self.model) {
+                                    out.push(Violation::new("error_but_changed", format!("commit returned {} yet the next transaction no longer sees the state from before it (left = observed): {}", self.last_commit_error.clone().unwrap_or_default(), diff)));
+                                    self.poisoned = true;
+                                }
+                            }
+                            other => {
+                                out.push(Violation::new("error_but_changed", format!("after a commit that returned an error the state cannot be read: {:?}", other.map(|x| x.map(|y| y.map(|_| ()))))));
+                                self.poisoned = true;
+                            }
+                        }
+                    } else {
+                        self.check_committed_state(or, &what, &mut out);
+                    }
+                    return out;
+                }
+                self.fault_next_commit = Some(if *call >= 3000 {
+                    // the call is cut short after 72 bytes (inside the header record, if it is the header write) and then fails
+                    crate::iosim::Fault::at(*call - 3000, crate::iosim::FaultMode::ShortThenErrno(72, libc::EIO))
+                } else if *call >= 2000 {
                     // any call of the commit, outcome pre- or post-state (the call may lie after the header write)
                     crate::iosim::Fault::at(*call - 2000, crate::iosim::FaultMode::Errno(libc::EIO))
                 } else if *call >= 1000 { crate::iosim::Fault::nth(crate::iosim::Kind::Fsync, *call - 1000, libc::EIO) } else { crate::iosim::Fault::at(*call, crate::iosim::FaultMode::Errno(libc::EIO)) });
@@ -848,6 +906,80 @@ impl Runner {
                     Ok(Ok(db)) => self.db = Some(Box::new(db)),
                     other => {
                         out.push(Violation::new("reopen_error", format!("open with the right page size after a refused one: {:?}", other.map(|x| x.map(|_| ())))));
+                        self.poisoned = true;
+                        return out;
+                    }
+                }
+                self.check_committed_state(or, &what, &mut out);
+            }
+            Action::LeakFreePage => {
+                if !self.readers.is_empty() {
+                    return out;
+                }
+                self.db = None;
+                let bytes = self.file_bytes();
+                let ps = self.cfg.pagesize;
+                if let Ok(m) = crate::fileck::choose_meta(&bytes, ps) {
+                    let at = (m.freelist_page * ps) as usize;
+                    // page header: id (8), type (1 + pad), count (8) at offset 16
+                    let count = u64::from_le_bytes(bytes[at + 16..at + 24].try_into().unwrap());
+                    if count > 0 {
+                        let r = std::fs::OpenOptions::new().write(true).open(&self.path).and_then(|f| {
+                            use std::os::unix::fs::FileExt;
+                            f.write_all_at(&(count - 1).to_le_bytes(), at as u64 + 16)
+                        });
+                        if let Err(e) = r {
+                            out.push(Violation::new("harness", format!("cannot edit the free list: {}", e)));
+                            self.poisoned = true;
+                            return out;
+                        }
+                    }
+                }
+                let cfg = self.cfg.clone();
+                let path = self.path.clone();
+                match guarded(|| cfg.open(&path)) {
+                    Ok(Ok(db)) => self.db = Some(Box::new(db)),
+                    other => {
+                        out.push(Violation::new("reopen_error", format!("open after a page was dropped from the free list: {:?}", other.map(|x| x.map(|_| ())))));
+                        self.poisoned = true;
+                        return out;
+                    }
+                }
+                self.check_committed_state(or, &what, &mut out);
+            }
+            Action::PinnedLayout => {
+                if !self.readers.is_empty() {
+                    return out;
+                }
+                self.db = None;
+                let bytes = self.file_bytes();
+                let ps = self.cfg.pagesize;
+                if let (Ok(m0), Ok(m1)) = (crate::fileck::read_meta(&bytes, ps, 0), crate::fileck::read_meta(&bytes, ps, 1)) {
+                    if m0.tx_id != m1.tx_id && !m0.legacy && !m1.legacy && (m0.tx_id + 1) % 2 != 0 {
+                        // transaction m0.tx_id belongs into slot (tx + 1) % 2 = 1: exchange the two pages
+                        let psz = ps as usize;
+                        let mut p0 = bytes[psz..2 * psz].to_vec();
+                        let mut p1 = bytes[..psz].to_vec();
+                        crate::fileck::relocate_header(&mut p0, 0);
+                        crate::fileck::relocate_header(&mut p1, 1);
+                        let r = std::fs::OpenOptions::new().write(true).open(&self.path).and_then(|f| {
+                            use std::os::unix::fs::FileExt;
+                            f.write_all_at(&p0, 0)?;
+                            f.write_all_at(&p1, ps)
+                        });
+                        if let Err(e) = r {
+                            out.push(Violation::new("harness", format!("cannot rewrite the headers: {}", e)));
+                            self.poisoned = true;
+                            return out;
+                        }
+                    }
+                }
+                let cfg = self.cfg.clone();
+                let path = self.path.clone();
+                match guarded(|| cfg.open(&path)) {
+                    Ok(Ok(db)) => self.db = Some(Box::new(db)),
+                    other => {
+                        out.push(Violation::new("reopen_error", format!("open after moving the headers into the pinned slots: {:?}", other.map(|x| x.map(|_| ())))));
                         self.poisoned = true;
                         return out;
                     }
